@@ -95,7 +95,7 @@ type Call struct {
 type Case struct {
 	Tools   []ToolDef `json:"tools"`
 	Behavs  []Behav   `json:"behavs"`
-	Handler string    `json:"handler"` // "" | ok | err
+	Handler string    `json:"handler"` // "" | ok | err | panic
 	RoleOK  bool      `json:"role_ok"`
 	Calls   []Call    `json:"calls"`
 	// call options
@@ -624,6 +624,15 @@ func buildNode(rc *recorder) (*compose.ToolsNode, error) {
 			defer rc.done(x)
 			return "", &toolErr{handlerErrCode}
 		}
+	case "panic":
+		conf.UnknownToolsHandler = func(ctx context.Context, name, input string) (string, error) {
+			rc := rc.pick(ctx)
+			x := rc.begin(ctx, name, input, "")
+			defer rc.done(x)
+			sleepUS(300)
+			panicAt(40, toolPanic{-1})
+			return "", nil
+		}
 	}
 	return compose.NewToolNode(context.Background(), conf)
 }
@@ -716,7 +725,12 @@ func msgsOf(ms []*schema.Message) []*Msg {
 	return out
 }
 
-// watchdog: run f on its own goroutine; (panic value, hung)
+// watchdog: run f on its own goroutine; (panic value, hung). A call that does not return within
+// 10 s is given another 50 s before it is called a hang (the machine may be heavily loaded: a
+// slow call is no observation about the implementation); after three genuine hangs the grace
+// period is dropped.
+var hangs int
+
 func guarded(f func()) (p any, hung bool) {
 	done := make(chan any, 1)
 	go func() { done <- lib.Recover(f) }()
@@ -724,6 +738,15 @@ func guarded(f func()) (p any, hung bool) {
 	case p = <-done:
 		return p, false
 	case <-time.After(10 * time.Second):
+	}
+	if hangs >= 3 {
+		return nil, true
+	}
+	select {
+	case p = <-done:
+		return p, false
+	case <-time.After(50 * time.Second):
+		hangs++
 		return nil, true
 	}
 }
@@ -849,16 +872,28 @@ func observe(o *RunObs, mode string, n int, inv func() ([]*schema.Message, error
 
 // let the tools that were started on goroutines finish (they always do: after a panic of the
 // inline task the node does not wait for them), then take the execution record
+var slowSettles int
+
 func (rc *recorder) settle(o *RunObs, c *Case) {
 	expect := 0
 	if o.Class != "setup" {
 		expect = c.bodies()
 	}
-	for w := 0; w < 400; w++ {
+	// (on a heavily loaded machine a goroutine may not be scheduled for a long time: up to 3 s as
+	// long as that happens rarely, 200 ms once it has happened five times: then it is no accident)
+	limit := 6000
+	if slowSettles >= 5 {
+		limit = 400
+	}
+	for w := 0; ; w++ {
 		rc.mu.Lock()
 		st, cp := len(rc.started), len(rc.completed)
 		rc.mu.Unlock()
 		if st == cp && (st == 0 || st >= expect) {
+			break
+		}
+		if w >= limit {
+			slowSettles++
 			break
 		}
 		time.Sleep(500 * time.Microsecond)
@@ -1183,7 +1218,7 @@ func (c *Case) coq(runs []string) string {
 		tbl[i] = lib.CoqApp("B", S(argsOf(i)),
 			lib.CoqApp("mkB", sList(b.Chunks), lib.CoqN(uint64(b.Fail)), failat, lib.CoqBool(b.Panic), lib.CoqBool(b.Bare)))
 	}
-	h := map[string]string{"": "HNone", "ok": "HOk", "err": fmt.Sprintf("(HErr %d%%N)", handlerErrCode)}[c.Handler]
+	h := map[string]string{"": "HNone", "ok": "HOk", "err": fmt.Sprintf("(HErr %d%%N)", handlerErrCode), "panic": "HPanic"}[c.Handler]
 	calls := make([]string, len(c.Calls))
 	for i, cl := range c.Calls {
 		calls[i] = lib.CoqApp("mkCall", S(cl.ID), S(cl.Name), S(argsOf(cl.K)))
@@ -1251,6 +1286,11 @@ func (c *Case) spec(streamed bool) spec {
 			if c.Handler == "err" {
 				s.errs = append(s.errs, handlerErrCode)
 				callFails(i, handlerErrCode)
+			}
+			if c.Handler == "panic" {
+				s.panics = true
+				s.errs = append(s.errs, 4)
+				callFails(i, 4)
 			}
 			s.msgs = append(s.msgs, &Msg{"unk:" + cl.Name + ":" + argsOf(cl.K), cl.ID})
 			s.tags = append(s.tags, "")
@@ -1622,7 +1662,7 @@ func genCase(r *lib.Rng, tier string) *Case {
 	}
 	switch {
 	case unknown:
-		c.Handler = []string{"", "ok", "ok", "err"}[r.Intn(4)]
+		c.Handler = []string{"", "ok", "ok", "err", "", "ok", "err", "panic"}[r.Intn(8)]
 	case r.Chance(1, 4):
 		c.Handler = "ok"
 	}
@@ -1710,6 +1750,9 @@ func (c *Case) goroutinePanic() bool {
 	}
 	for i, cl := range c.Calls {
 		if i >= 1 && cl.K >= 0 && c.kindOf(cl.Name) != "" && c.Behavs[cl.K].Panic {
+			return true
+		}
+		if i >= 1 && c.kindOf(cl.Name) == "" && c.Handler == "panic" {
 			return true
 		}
 	}
@@ -1850,7 +1893,7 @@ func (engine) runCase(c *Case) lib.Result {
 	}
 	sort.Strings(ks)
 	res.Tags = []string{fmt.Sprintf("calls:%d", len(c.Calls)), "kinds:" + strings.Join(ks, "+"),
-		"handler:" + map[string]string{"": "none", "ok": "ok", "err": "err"}[c.Handler],
+		"handler:" + map[string]string{"": "none", "ok": "ok", "err": "err", "panic": "panic"}[c.Handler],
 		fmt.Sprintf("unknown:%v", unknown > 0), fmt.Sprintf("failing:%d", min(fails, 3)), fmt.Sprintf("panicking:%d", min(panics, 2))}
 	if zero > 0 {
 		res.Tags = append(res.Tags, "domain:zero-chunk-stream(outside)")
@@ -1925,12 +1968,16 @@ func min(a, b int) int {
 // Shrink: drop calls, then call options, then delays, while the same oracle failure persists.
 func (engine) Shrink(ci any, stillFails func(any) bool) any {
 	c := ci.(*Case)
+	// a lost panic of a goroutine task may take the process down in the streamed form: its smaller
+	// variants are judged by the value-returning runs; so are those of any failure that showed in a
+	// value-returning run (a lost result would leave the streamed form without a stream to read)
+	invokeOnly = c.goroutinePanic() || c.peerCase().goroutinePanic()
 	if prev, ok := sticky[js(c)]; ok {
 		shrinkingFrom = "while minimising this failure: " + prev.Oracle + " -- found on case " + js(c)
+		if obs, ok := prev.Obs.([]RunObs); ok && len(obs) > 0 && strings.HasPrefix(obs[len(obs)-1].Mode, "invoke") {
+			invokeOnly = true
+		}
 	}
-	// a lost panic of a goroutine task may take the process down in the streamed form: its smaller
-	// variants are judged by the value-returning runs
-	invokeOnly = c.goroutinePanic() || c.peerCase().goroutinePanic()
 	defer func() { shrinkingFrom, invokeOnly = "", false }()
 	cur := *c
 	for changed := true; changed; {
